@@ -1,6 +1,6 @@
 """C10 configuration for ./check (see checks/propcfg.py for the keys)."""
 CFG = {
-    "modules": ["VaxisModel.Props.C10", "VaxisModel.Props.C10Shutdown", "VaxisModel.Props.C10Use", "VaxisModel.Props.C10Inventory", "VaxisModel.Props.C10Spinner", "VaxisModel.Props.C10Resume", "VaxisModel.Witness.F13", "VaxisModel.Witness.F33", "VaxisModel.Witness.F53", "VaxisModel.Witness.F210"],
+    "modules": ["VaxisModel.Props.C10", "VaxisModel.Props.C10Shutdown", "VaxisModel.Props.C10Use", "VaxisModel.Props.C10Inventory", "VaxisModel.Props.C10Spinner", "VaxisModel.Props.C10Resume", "VaxisModel.Props.C10Protect", "VaxisModel.Witness.F13", "VaxisModel.Witness.F33", "VaxisModel.Witness.F53", "VaxisModel.Witness.F210", "VaxisModel.Witness.F410"],
     "extractors": ["C10"],
     "drivers": ["C10"],
     "stateful": True,
